@@ -333,8 +333,23 @@ class World:
         self.results.append(r)
         return r
 
-    def create(self, root, formats=("xxh64",), sf=None, flags=(), extra=(), **kw):
-        args = [self.abs(root)]
+    def spelled(self, root, spell):
+        """how a root folder is typed on the command line -> (argument, working directory or None)"""
+        root = root.rstrip("/") if len(root) > 1 else root
+        if spell == "slash":
+            return self.abs(root) + os.sep, None
+        if spell == "rel" and root:
+            a = os.path.basename(self.abs(root))
+            return ("./" + a if a.startswith("-") else a), os.path.dirname(self.abs(root))
+        if spell == "dot" and root:
+            return ".", self.abs(root)
+        return self.abs(root), None
+
+    def create(self, root, formats=("xxh64",), sf=None, flags=(), extra=(), spell="abs", **kw):
+        a0, cwd = self.spelled(root, spell)
+        if cwd is not None:
+            kw = dict(kw, cwd=cwd)
+        args = [a0]
         for f in formats:
             args += ["-h", f]
         args += list(flags)
@@ -371,11 +386,17 @@ class World:
             if d in roots:
                 pass
 
-    def verify(self, root, flags=(), **kw):
-        return self.run("verify", [self.abs(root)] + list(flags), **kw)
+    def verify(self, root, flags=(), spell="abs", **kw):
+        a0, cwd = self.spelled(root, spell)
+        if cwd is not None:
+            kw = dict(kw, cwd=cwd)
+        return self.run("verify", [a0] + list(flags), **kw)
 
-    def diff(self, root, flags=(), **kw):
-        return self.run("diff", [self.abs(root)] + list(flags), **kw)
+    def diff(self, root, flags=(), spell="abs", **kw):
+        a0, cwd = self.spelled(root, spell)
+        if cwd is not None:
+            kw = dict(kw, cwd=cwd)
+        return self.run("diff", [a0] + list(flags), **kw)
 
     def info(self, root=None, sf=None, flags=(), **kw):
         args = []
